@@ -223,11 +223,19 @@ func PrepareExternalNode(ctx context.Context, log *Log, mode, binary string, spe
 	if genTimeout == "" {
 		genTimeout = "10s"
 	}
+	adminBlock := ""
+	if len(spec.AdminIPs) > 0 {
+		// server.rules.admin-ips: the source addresses from which voluntary exits may be signed through the generic endpoint
+		adminBlock = "\n  rules:\n    admin-ips:"
+		for _, ip := range spec.AdminIPs {
+			adminBlock += "\n    - '" + ip + "'"
+		}
+	}
 	cfg := fmt.Sprintf(`log-level: warn
 server:
   id: %d
   name: %s
-  listen-address: %s
+  listen-address: %s%s
 certificates:
   server-cert: file://%s/server.crt
   server-key: file://%s/server.key
@@ -247,7 +255,7 @@ process:
   generation-passphrase: file://%s/pass.txt
   generation-timeout: %s
 permissions:
-%s`, node.ID, node.Name, addr, base, base, base, base, wallets, pp.String(), base, base, base, genTimeout, pb.String())
+%s`, node.ID, node.Name, addr, adminBlock, base, base, base, base, wallets, pp.String(), base, base, base, genTimeout, pb.String())
 	if err := os.WriteFile(filepath.Join(base, "dirk.yml"), []byte(cfg), 0o600); err != nil {
 		return nil, err
 	}
@@ -360,6 +368,27 @@ func (r *Runner) RunRemote(ctx context.Context, sc *Scenario, binary string) err
 	if err != nil {
 		return err
 	}
+	// requests that state a source address (op.IP, a loopback address) travel over a connection bound to that address
+	fromConns := map[string]*grpc.ClientConn{}
+	stackFor := func(ip string) (*Stack, error) {
+		if ip == "" {
+			return st, nil
+		}
+		if c, ok := fromConns[ip]; ok {
+			return &Stack{B: env.B, Sig: clientSig{pb.NewSignerClient(c)}}, nil
+		}
+		c, err := env.Dialer().DialFrom(ctx, "valid-c1", ip)
+		if err != nil {
+			return nil, err
+		}
+		fromConns[ip] = c
+		return &Stack{B: env.B, Sig: clientSig{pb.NewSignerClient(c)}}, nil
+	}
+	defer func() {
+		for _, c := range fromConns {
+			_ = c.Close()
+		}
+	}()
 	r.Log.Emit(Ev{"ev": "Begin", "sc": sc.ID, "nkeys": len(env.B.PubKeys), "nconc": len(sc.Conc), "remote": true})
 	restart := func(why string) error {
 		env.Kill()
@@ -398,7 +427,12 @@ func (r *Runner) RunRemote(ctx context.Context, sc *Scenario, binary string) err
 				}
 			} else {
 				dctx, dcancel := context.WithTimeout(ctx, 60*time.Second) // a wedged binary shows as ERROR, not as a driver that never ends
-				r.runSign(dctx, st, env.B, op)
+				ost, serr := stackFor(op.IP)
+				if serr != nil {
+					dcancel()
+					return fmt.Errorf("connection from %s: %w", op.IP, serr)
+				}
+				r.runSign(dctx, ost, env.B, op)
 				dcancel()
 			}
 		case "par":
